@@ -70,6 +70,7 @@ function e.f(frame)
   add("trim", mw.text.trim("  t  ")) add("arg", frame.args.n)
   local c = 0 for k, v in pairs({1, 2, 3}) do c = c + 1 end add("pairs", c)
   local c2 = 0 local k = next({5, 6}) if k ~= nil then c2 = 1 end add("next", c2)
+  local acc = 0 for i = 1, 300000 do acc = acc + i % 3 end
   return table.concat(r, ",")
 end
 return e'''
@@ -77,7 +78,7 @@ return e'''
 
 def floors(tier):
     return {"oracle.visit==fresh-context": 1500, "sets.mutator-reader-pairs": 40, "sets.page-op-pairs": 150,
-            "counters.visit.kind.lua-reader": 100, "counters.visit.kind.soup-open": 50, "counters.foreign-contexts-created": 4, "counters.config-victim-visits.ext": 9, "counters.config-victim-visits.alias": 9,
+            "counters.visit.kind.lua-reader": 100, "counters.visit.kind.soup-open": 50, "counters.foreign-contexts-created": 4, "counters.virtual-time-jumps": 100, "counters.config-victim-visits.ext": 9, "counters.config-victim-visits.alias": 9,
             "sets.ops": 6}
 
 
@@ -102,7 +103,9 @@ def corpus(rng):
            "{{#if:{{ta}}|{{tc|{{tb}}}}|n}} {{#switch:a|a={{ta|1}}|b=2}}", "{{loop}} {{l2}}", "{{#expr:1/0}} {{#time:}} {{missing|a}}",
            "{{ta|{{ta|{{ta|{{ta|x}}}}}}}} [[a|{{ta|l}}]] [http://x {{ta|e}}]", "{{PAGENAME}} {{FULLPAGENAME}} {{NAMESPACE}} {{#titleparts:a/b/c|1}}",
            "<foo>ext</foo> <bar a=1>b</bar>", "{{#tag:ref|x|name=n}} <ref name=n/> {{#tag:nowiki|{{ta}}}}",
-           "{{fr-only}} {{#invoque:reader|f}}", "{{ovr|a|b}}"]
+           "{{fr-only}} {{#invoque:reader|f}}", "{{ovr|a|b}}",
+           "{{T:ta|x}} {{template:ta|y}} {{Template:ta|z}} {{TEMPLATE:tc|x=1}} {{t:tl|q}}", "[[Category:X]] [[CAT:Y]] [[category:z]] [[File:a.png|thumb]] [[:Template:ta]]",
+           "{{#invoke:Module:reader|f|n=m}} {{#invoke:module:reader|f}} {{Modèle:ta|fr}} {{Vorlage:ta|de}}"]
     for i, t in enumerate(tpl):
         pages.append({"name": "Tmpl%d" % i, "kind": "templates", "text": t})
     for k in MUTATORS:
@@ -136,6 +139,12 @@ def make_db(path):
     shim.install(ctx)
     for t, ns, b in db_pages():
         ctx.add_page(t, ns, b, model="Scribunto" if ns == 828 else "wikitext")
+    # the same helper templates under the localised Template namespace names of the other-language victims
+    for loc in ("Modèle", "Vorlage"):
+        ctx.db_conn.execute("INSERT OR REPLACE INTO pages (title, namespace_id, body, need_pre_expand, model) VALUES (?, 10, ?, 0, 'wikitext')",
+                            (loc + ":ta", "L[{{{1|}}}]"))
+        ctx.db_conn.execute("INSERT OR REPLACE INTO pages (title, namespace_id, body, need_pre_expand, model) VALUES (?, 10, ?, 0, 'wikitext')",
+                            (loc + ":tb", "LB"))
     ctx.add_page("Template:td", 10, "{|", need_pre_expand=True)
     ctx.add_page("Template:tf", 10, "|}", need_pre_expand=True)
     ctx.db_conn.commit()
@@ -219,11 +228,17 @@ CONFIGS = {
     # redefines existing tags ONLY (same tag-name set as a default context, different nesting data)
     "redef": {"extension_tags": {"div": {"parents": ["phrasing"], "content": ["phrasing"]},
                                  "p": {"parents": ["phrasing"], "content": ["flow"]}}},
+    # other language edition (localised namespace names and aliases) and other project
+    "fr": {"lang_code": "fr"},
+    "de-wikipedia": {"lang_code": "de", "project": "wikipedia"},
 }
 CONFIG_PAGES = [
     {"name": "CfgNest", "kind": "config-sensitive", "text": "<span>a<div>b</div>c</span> <foo>x<b>y</b></foo> <div><foo>z</foo></div>"},
     {"name": "CfgAlias", "kind": "config-sensitive", "text": "{{#invoque:reader|f|n=1}} {{#invoke:reader|f|n=2}}"},
     {"name": "CfgTable", "kind": "config-sensitive", "text": "{|\n| <div>c</div> || <foo>d</foo>\n|}\n<p><div>q</div></p>"},
+    {"name": "CfgPrefix", "kind": "config-sensitive", "text": "{{Modèle:ta|x}} {{modèle:tb}} {{M:ta}} {{Vorlage:ta|y}} {{T:ta|z}} {{Template:ta}} "
+                                                              "[[Catégorie:X]] [[Kategorie:Y]] {{#invoke:Module:reader|f}} {{NAMESPACE}} {{ns:10}}"},
+    {"name": "Modèle:Cfg/Sub", "kind": "config-sensitive", "text": "{{PAGENAME}} {{FULLPAGENAME}} {{NAMESPACE}} {{TALKSPACE}} {{ta|1}}"},
 ]
 
 
@@ -319,7 +334,15 @@ def run_history(db, hist, base, obs, record=True, cfg="default"):
     bad = []
     try:
         prev = None
+        clock = None
         for i, (p, op) in enumerate(hist):
+            if clock is None and ctx.lua is not None:
+                from vf.lua.vclock import VClock
+                clock = VClock(ctx, max_polls=10 ** 9)
+            if clock is not None:
+                clock.advance(150)      # more than any Lua time limit passes between two visits
+                if record:
+                    obs.count("virtual-time-jumps")
             got = visit(ctx, p, op)
             want = base.get([(p, op)], cfg)[0]
             if record:
@@ -417,7 +440,7 @@ def run_shard(spec):
             hists.append([(m, "expand"), (r, op)])
     # configuration victims: a context with OTHER options, created after default contexts (and after the foreign
     # contexts above) exist in this process, must behave like the same configuration in a pristine process
-    for cfg in ("ext", "alias", "redef"):
+    for cfg in ("ext", "alias", "redef", "fr", "de-wikipedia"):
         ch = [(p, op) for p in CONFIG_PAGES for op in ("parse", "expand", "parse_all")]
         rng.shuffle(ch)
         b = run_history(db, ch, base, obs, cfg=cfg)
